@@ -124,9 +124,29 @@ def _make_whisper():
   m.FADVISE_RANDOM = False
   m.calls = []
 
-  class InvalidConfiguration(Exception):
+  class WhisperException(Exception):
     pass
+
+  class InvalidConfiguration(WhisperException):
+    pass
+
+  class CorruptWhisperFile(WhisperException):
+    def __init__(self, error, path):
+      Exception.__init__(self, error)
+      self.error = error
+      self.path = path
+
+  class InvalidTimeInterval(WhisperException):
+    pass
+
+  class TimestampNotCovered(WhisperException):
+    pass
+  m.WhisperException = WhisperException
   m.InvalidConfiguration = InvalidConfiguration
+  m.CorruptWhisperFile = CorruptWhisperFile
+  m.InvalidTimeInterval = InvalidTimeInterval
+  m.TimestampNotCovered = TimestampNotCovered
+  m.NEXT_UPDATE_FAULT = [None]      # harness: name of an exception class the next update_many() raises
 
   def validateArchiveList(archiveList):
     if not archiveList:
@@ -143,6 +163,11 @@ def _make_whisper():
 
   def update_many(path, points):
     m.calls.append(('update_many', path, list(points)))
+    fault, m.NEXT_UPDATE_FAULT[0] = m.NEXT_UPDATE_FAULT[0], None
+    if fault == 'CorruptWhisperFile':
+      raise CorruptWhisperFile('Unable to read header', path)
+    if fault:
+      raise {'IOError': IOError, 'InvalidTimeInterval': InvalidTimeInterval, 'TimestampNotCovered': TimestampNotCovered}[fault]('injected')
     with open(path, 'ab') as f:
       f.write(b'.')
   m.update_many = update_many
